@@ -90,7 +90,7 @@ def gen_bs(rng, n, container):
     if container in ("np", "tf", "torch"):
         opts += [None, None]
     b = rng.choice(opts)
-    if container == "ds_unbatched" and b > n:
+    if container in ("ds_unbatched", "dl") and b > n:
         # finding (reported): an UNBATCHED tf.data.Dataset with batch_size > N is rejected by harmonize_datasets /
         # sanitize_dataset ("The batch size should match between datasets"): the first batch has N < batch_size rows
         b = n
@@ -107,6 +107,8 @@ def gen_case(rng, tier, with_classes=False):
     nq = rng.randint(1, 3)
     qs = [list(rng.choice(cases)) if rng.random() < 0.4 else
           [rng.choice(SMALL if tie_heavy else GRID) for _ in range(dim)] for _ in range(nq)]
+    # "dl" (torch DataLoader) is implemented in make_datasets but not generated: with torch 2.14 every DataLoader
+    # crashes in convert_torch_to_tf.split_and_convert_column_dataloader ((None,) + torch.Size -> TypeError); reported
     container = rng.choice(["np", "np", "tf", "torch", "ds_batched", "ds_batched", "ds_unbatched"])
     proj = gen_proj(rng, shape, ncls)
     label_kind = rng.choice(["none", "int", "int", "vec"])
@@ -124,7 +126,7 @@ def gen_case(rng, tier, with_classes=False):
         targets = [onehot(rng.randrange(ncls)) for _ in range(n)]
         qtargets = [onehot(rng.randrange(ncls)) for _ in range(nq)]
     columns = 1
-    if container.startswith("ds"):
+    if container.startswith("ds") or container == "dl":
         # how labels / targets travel: extra columns of the cases dataset or separate datasets
         if targets is not None and labels is not None and rng.random() < 0.6:
             columns = 3
@@ -274,6 +276,18 @@ def make_datasets(case, with_targets=None):
         cv = (lambda a: None if a is None else torch.tensor(a))
         return cv(X), cv(L), cv(T), bs
     cols = case["columns"]
+    if cont == "dl":
+        import torch
+        from torch.utils.data import DataLoader, TensorDataset
+        tens = torch.tensor
+        if cols == 3:
+            ds, L, T = TensorDataset(tens(X), tens(L), tens(T)), None, None
+        elif cols == 2:
+            ds, L = TensorDataset(tens(X), tens(L)), None
+        else:
+            ds = TensorDataset(tens(X))
+        mkl = (lambda a: None if a is None else DataLoader(TensorDataset(tens(a)), batch_size=bs, shuffle=False))
+        return DataLoader(ds, batch_size=bs, shuffle=False), mkl(L), mkl(T), None
     if cols == 3:
         ds = tf.data.Dataset.from_tensor_slices((X, L, T))
         L = T = None
@@ -456,6 +470,8 @@ def dump_term(case, res):
 
 
 def explain_failure(case, res, model):
+    if res is None:
+        return "the implementation raised on a valid configuration (see implementation_error)"
     want, inc = expected_keys(case)
     info = dict(clause="returned slots = k nearest cases (sorted distances equal the model's, every index valid with its true "
                        "distance, examples / labels are the original cases at the indices)",
@@ -483,7 +499,7 @@ def shrink(case):
                     del c[f][i]
             c["n"] = n - 1
             c["k"] = min(c["k"], n - 1)
-            if c["container"] == "ds_unbatched" and c["bs"] is not None:
+            if c["container"] in ("ds_unbatched", "dl") and c["bs"] is not None:
                 c["bs"] = min(c["bs"], n - 1)
             yield c
     if case["k"] > 1:
